@@ -290,7 +290,7 @@ func (g *dbGen) line(maxCache int) string {
 	return fmt.Sprintf("C05 db %d %d %s", g.maxFile, maxCache, strings.Join(g.ops, " "))
 }
 
-func pickMaxFile(r *core.Rand) int   { return int(r.Pick(60, 100, 100, 200, 400, 1000000)) }
+func pickMaxFile(r *core.Rand) int  { return int(r.Pick(60, 100, 100, 200, 400, 1000000)) }
 func pickMaxCache(r *core.Rand) int { return int(r.Pick(0, 0, 200, 600, 2000, 100000000)) }
 
 // genKv: buckets, keys, cursors, readers, flushes, reopen; few blocks.
